@@ -1062,6 +1062,12 @@ func foTableScenarios() []foScenario {
 								c.SR = sr
 								out = append(out, foScenario{Cfg: c, Keys: []foKey{k}, Threads: []foThread{{Key: 1}}, Builds: []foBuild{{OK: bok}},
 									FaultAt: map[int]bool{}, SchedSeed: 1, Label: "table"})
+								if state == "stale" || state == "toostale" {
+									// the same cell behind a decorating backend that wraps its read errors with %w (the frontends look
+									// for the expired item with errors.As, so the table is the same)
+									out = append(out, foScenario{Cfg: c, Keys: []foKey{k}, Threads: []foThread{{Key: 1}}, Builds: []foBuild{{OK: bok}},
+										FaultAt: map[int]bool{}, SchedSeed: 1, Label: "table", WrapErrs: true})
+								}
 								if state == "stale" && !msSet {
 									// the same cell under a negative MaxStaleness
 									cn := c
@@ -1353,6 +1359,28 @@ func foDFSBases(tier string) []foScenario {
 								out = append(out, late)
 							}
 						}
+					}
+				}
+			}
+		}
+	}
+	// second family (appended, so base indices of the first stay valid): one backend fault at the i-th call-out of the run,
+	// two Gets for the key, the second optionally under SkipRead (a waiter that cannot be answered from the backend and
+	// depends on what the owner publishes - also when the owner leaves early because its backend failed)
+	for _, variant := range []string{"F", "Of"} {
+		for _, state := range []string{"absent", "stale", "toostale"} {
+			for bits := 0; bits < 8; bits++ {
+				for _, skip2 := range []bool{false, true} {
+					for faultAt := 0; faultAt < 4; faultAt++ {
+						su, sr, fh := bits&1 != 0, bits&2 != 0, bits&4 != 0
+						c := foCfg{Variant: variant, SU: su, SR: sr, FH: fh, FUT: -1}
+						c.Backend = map[string]string{"F": "sharded", "Of": "shardedOf"}[variant]
+						if state == "toostale" {
+							c.MS = time.Hour
+						}
+						sc := foScenario{Cfg: c, Keys: []foKey{{State: state, Val: 10}}, FaultAt: map[int]bool{faultAt: true}, Label: "dfs", DFS: true,
+							Threads: []foThread{{Key: 1}, {Key: 1, Skip: skip2}}, Builds: []foBuild{{OK: true}}}
+						out = append(out, sc)
 					}
 				}
 			}
